@@ -6,6 +6,8 @@ DOC = {
     'not_decided': ['linearizability of histories under preemption (needs schedule exploration)'],
 }
 
+WITNESSES = ['C01W1Fail', 'C01W1Twin', 'C01W2Fail', 'C01W2Twin']
+
 
 def rules(ctx):
     S.c03_r1_write_slot(ctx)
